@@ -214,6 +214,12 @@ fn main() {
     record_main(&args[2]);
     return;
   }
+  if args.len() >= 3 && args[1] == "stress" {
+    std::panic::set_hook(Box::new(|_| {}));
+    let r = child::run_stress(args[2].parse().unwrap_or(0));
+    println!("RESULT {}", r);
+    return;
+  }
   if args.len() >= 4 && args[1] == "probe" {
     std::panic::set_hook(Box::new(|_| {}));
     let hold: u8 = args.get(4).and_then(|a| a.parse().ok()).unwrap_or(7);
@@ -264,6 +270,20 @@ fn main() {
     let doc: Value = serde_json::from_str(&std::fs::read_to_string(&path).expect("read replay")).expect("parse replay");
     let case = &doc["case"];
     let scn_name = case["scenario"].as_str().unwrap();
+    if scn_name == "first-use stress (sampled)" {
+      let exe = std::env::current_exe().unwrap();
+      let mut bad = false;
+      for k in 0..40u64 {
+        let out = Command::new(&exe).arg("stress").arg(k.to_string()).output().expect("stress child");
+        let r: Value = String::from_utf8_lossy(&out.stdout).lines().find_map(|l| l.strip_prefix("RESULT ").map(|r| serde_json::from_str::<Value>(r).ok())).flatten().unwrap_or(json!({}));
+        if r["stress"] != json!("done") || r["problems"].as_array().map(|a| !a.is_empty()).unwrap_or(true) {
+          bad = true;
+          eprintln!("REPLAY C20 stress: {}", r);
+          break;
+        }
+      }
+      std::process::exit(if bad { 1 } else { 0 });
+    }
     if scn_name == "mutual-exclusion probe" {
       let exe = std::env::current_exe().unwrap();
       let out = Command::new(exe).arg("probe").arg(case["call_kind"].to_string()).arg(case["depths"][0].to_string()).arg(case.get("hold_point").and_then(|h| h.as_u64()).unwrap_or(7).to_string()).output().expect("probe child");
@@ -415,7 +435,41 @@ fn main() {
       probes.push(json!({"call_kind": k, "depth": d, "hold_point": hp, "result": r}));
     }
   }
+  // free-running first-use stress: SAMPLED corroboration (labelled as such), in fresh processes
+  let stress_info = {
+    let nproc: u64 = if quick { 16 } else { 160 };
+    let items: Vec<u64> = (0..nproc).collect();
+    let results = par_map(&items, |&k| {
+      let exe = std::env::current_exe().unwrap();
+      match Command::new(exe).arg("stress").arg(k.to_string()).output() {
+        Ok(o) => String::from_utf8_lossy(&o.stdout).lines().find_map(|l| l.strip_prefix("RESULT ").map(|r| serde_json::from_str::<Value>(r).ok())).flatten(),
+        Err(_) => None,
+      }
+    });
+    let mut first_problem: Option<Value> = None;
+    for r in results.into_iter() {
+      match r {
+        Some(r) if r["stress"] == json!("done") && r["problems"].as_array().map(|a| a.is_empty()).unwrap_or(false) => {}
+        other => {
+          if first_problem.is_none() {
+            first_problem = Some(other.unwrap_or(json!({"stress": "child crashed"})));
+          }
+        }
+      }
+    }
+    if let Some(p) = &first_problem {
+      total.viol(Viol {
+        api: "get_or_create".into(),
+        kind: "first-use-race(sampled)".into(),
+        case: json!({"scenario": "first-use stress (sampled)", "call_kind": 0, "depths": [0, 0], "choices": []}),
+        expected: "15 threads released together making the first calls of a process (distinct depths, then three per depth) all obtain the object / value a later call obtains; no panic".into(),
+        actual: p.to_string(),
+      });
+    }
+    json!({"processes": nproc, "threads": 15, "exhaustive": false, "note": "free-running threads (sampling): corroboration only, not counted in the exhaustive bound", "problem": first_problem})
+  };
   let mut extra = Map::new();
+  extra.insert("first_use_stress_sampled".into(), stress_info);
   extra.insert("scenarios".into(), json!(scn_info));
   extra.insert("mutual_exclusion_probes".into(), json!(probes));
   extra.insert("distinct_event_logs".into(), json!(event_logs.len()));
